@@ -9,7 +9,7 @@ FILES = ['include/urcu/rculist.h', 'include/urcu/rcuhlist.h', 'include/urcu/list
 TRUSTED = ['Coq 8.16.1 kernel; no axioms', 'extraction: ExtrOcamlBasic only; ocaml/rculist_driver.ml', 'projection of traces onto model choices: tools/props/C18.py (trusted)',
            'harness: scen_list.c, sched.c, plain_hooks.c (the scenario is compiled with -fsanitize=thread instrumentation and our own callbacks: every plain store to a list node or head is a scheduling point and goes through the simulated store buffer like the hooked publication stores)',
            'modelled: forward pointers only (prev pointers are never read by RCU readers); one updater; grace period = harness-provided wait for open sections']
-PROGS = ['a0a1t2d1r03ga4d2g/FfFF/fFfF', 'h0h1h2x1gh3x0x2g/HGHH/GHGH', 'a0t1a2d0d1d2ga3/FFFF/ffff/Ff', 'h4h5x5h6x4gx6/HHHH/GGGG', 't0t1r02d1gr23d3/FfFf/fFfF',
+PROGS = ['a0d0gt1t2d1a3d2d3gt4/FfFF/fFfF', 'a0a1t2d1r03ga4d2g/FfFF/fFfF', 'h0h1h2x1gh3x0x2g/HGHH/GHGH', 'a0t1a2d0d1d2ga3/FFFF/ffff/Ff', 'h4h5x5h6x4gx6/HHHH/GGGG', 't0t1r02d1gr23d3/FfFf/fFfF',
          'a0h0a1h1d0x0gd1x1g/FHFH/HFHF']
 SZ, OL, OH = 56, 16, 40
 
@@ -117,7 +117,7 @@ def run(ctx):
     model = build_model_driver(ctx, 'rculist', 'ExtractRcuList.v', 'rculist_driver.ml')
     if impl:
         cases = [c for c in corpus('C18') if len(c) == 2]
-        for prog in PROGS[:4 if ctx.quick() else len(PROGS)]:
+        for prog in PROGS[:5 if ctx.quick() else len(PROGS)]:
             th = [str(i) for i in range(prog.count('/') + 1)]
             for v in th[1:]:                       # a reader frozen after each of its loads while the updater completes k operations, store buffered or flushed
                 for point in range(1, 20 if ctx.quick() else 40):
